@@ -155,7 +155,7 @@ def in_process(schedules, tier, seed, findings, counters):
         for strings in (False, True):
             ref, ref_out = solo(lp, np_, strings)
             for k, sched in enumerate(schedules):
-                for b_kind in (("same", "other", "clone") if tier == "thorough" else (("same", "other", "clone")[(k + seed) % 3],)):
+                for b_kind in (("same", "other", "clone")[(k + seed) % 3],):
                     got, out = run_schedule(lp, np_, sched, strings, b_kind)
                     counters["schedules"] = counters.get("schedules", 0) + 1
                     if got != ref:
